@@ -98,6 +98,16 @@ CLAIMS.update({
    technique="Lean 4 proof over an interleaving semantics + effect summary regenerated from source (go/ast+go/types) + race-detector stress runs"),
 })
 
+CLAIMS.update({
+ 'C08': dict(level='proof',
+   text="Lean theorems: dearmor_armor (∀ bytes: read (armor b) = (b, eof)); armor_writer_refines_spec (the writer machine — BEGIN line, streaming base64 with 0..2 held bytes, 64-column wrapping, END line — emits exactly armor(concatenation) "
+        "under EVERY write sequence incl. none and every split into destination writes, for every destination behaviour whenever all calls succeed); armor_canonical (every text accepted to a clean end is, line by line modulo one CR per line, "
+        "whitespace-only lines + the lines of armor b + < W bytes of white space: only the documented tolerances); armor_reader_refines_spec (per-Read machine = whole-text read for all positive read sizes); armor_errors_typed; "
+        "armor_reader_sticky / armor_error_leaves_no_data; armor_src_fault_no_eof. Strict padded base64 proved canonical both ways. Tie: armor.NewWriter/NewReader under write sequences, faults at every offset, exhaustive line structures, mutations, whitespace budgets ±1, Unicode spaces.",
+   note=COMMON_NOTE + "Models the tree WITH the fix: commits F1, F2, F3, F10 (known_findings.json). bytes.TrimSpace / unicode.IsSpace modelled as an explicit UTF-8 pattern set; encoding/base64's streaming encoder modelled (complete 3-byte groups passed on per call).",
+   technique="Lean 4 proof (induction over lines / write operations; canonicity of strict base64) + exhaustive line-structure correspondence"),
+})
+
 def main():
     hook = subprocess.run(['git', '-C', '/repo', 'log', '--format=%h', '--grep=^verifhook', '-n', '5'], capture_output=True, text=True).stdout.split()
     m = {
